@@ -513,7 +513,7 @@ FULL = {"k": "slice", "v": [None, None, None]}
 
 @st.composite
 def getitem_case(draw):
-    if draw(st.integers(0, 9)) == 0:
+    if C.chance(draw, 10):
         # full-shape mask.  x[mask] ravels x first; reshape of arrays with empty chunks / zero-length axes split into
         # several blocks fails inside dask.array.reshape (C24's subject), so those arrays are not combined with masks here
         arr = draw(C.array_st(zero_chunk_pct=0, min_dims=1, max_dims=3, min_side=1, max_side=5, dtypes=("i8", "f8"), fills=("arange",)))
@@ -522,7 +522,7 @@ def getitem_case(draw):
     arr = draw(C.array_st(min_dims=0, max_dims=3, max_side=6, dtypes=("i8", "f8"), fills=("arange",)))
     shape, chunks = arr["shape"], arr["chunks"]
     nd = len(shape)
-    fancy_axis = draw(st.integers(0, nd - 1)) if nd and draw(st.integers(0, 99)) < 55 else None
+    fancy_axis = draw(st.integers(0, nd - 1)) if nd and C.chance(draw, 55) else None
     items = []
     for ax, n in enumerate(shape):
         if ax == fancy_axis:
@@ -552,7 +552,7 @@ def vindex_case(draw):
     arr = draw(C.array_st(min_dims=1, max_dims=3, min_side=draw(st.sampled_from([1] * 9 + [0])), max_side=6, dtypes=("i8", "f8"), fills=("arange",)))
     shape = arr["shape"]
     nd = len(shape)
-    pure = draw(st.integers(0, 9)) < 6
+    pure = C.chance(draw, 60)
     # (0-d NumPy point arrays are not generated: _vindex_array calls len() on them and raises TypeError; 0-d points are
     # spelled as integers, which vindex accepts)
     bshape = draw(st.sampled_from([[1], [2], [3], [5], [0], [2, 2], [3, 1], [1, 4], [2, 1, 2]]))
@@ -568,12 +568,12 @@ def vindex_case(draw):
         if kind == "pts":
             # a shape broadcastable to bshape
             k = draw(st.integers(1, len(bshape)))
-            shp = [1 if (s != 1 and draw(st.integers(0, 4)) == 0) else s for s in bshape[len(bshape) - k :]]
+            shp = [1 if (s != 1 and C.chance(draw, 20)) else s for s in bshape[len(bshape) - k :]]
             if n == 0:
                 shp = [0] if not shp else [0 if j == 0 else s for j, s in enumerate(shp)]
             size = int(np.prod(shp)) if shp else 1
             v = [draw(st.integers(-n, n - 1)) for _ in range(size)] if n else []
-            if v and draw(st.integers(0, 29)) == 0:
+            if v and C.chance(draw, 3):
                 v[draw(st.integers(0, len(v) - 1))] = draw(st.sampled_from([n, -n - 1]))
             # (a nested list cannot spell an empty array of >= 2 dims: it would change the shape)
             as_ = "np" if (0 in shp and len(shp) > 1) else draw(st.sampled_from(["np", "list"]))
@@ -584,7 +584,7 @@ def vindex_case(draw):
             items.append(draw(C.int_item_st(n, oob=0.02)))
         else:
             items.append(dict(FULL))
-    if draw(st.integers(0, 3)) == 0:
+    if C.chance(draw, 25):
         while items and items[-1] == FULL:
             items.pop()
         if not any(it["k"] == "pts" for it in items):
@@ -597,7 +597,7 @@ def blocks_case(draw):
     arr = draw(C.array_st(min_dims=1, max_dims=3, max_side=6, dtypes=("i8", "f8"), fills=("arange",)))
     grid = [len(c) for c in arr["chunks"]]
     nd = len(grid)
-    list_axis = draw(st.integers(0, nd - 1)) if draw(st.integers(0, 2)) == 0 else None
+    list_axis = draw(st.integers(0, nd - 1)) if C.chance(draw, 33) else None
     items = []
     for ax, n in enumerate(grid):
         if ax == list_axis:
